@@ -31,6 +31,8 @@ def build_lines(st, decorate, rnd):
         if decorate:
             extra = [["xn:i:-3"], ["xx:Z:a:b", "xf:f:1e-05"], ["xs:Z:two words "], ["xa:A:*"]][idnum(n["id"]) % 4]
             tags += extra
+        if decorate and idnum(n["id"]) % 5 == 3:      # LN is optional when the sequence is given: nothing may invent it
+            tags = [t for t in tags if not t.startswith("LN:")]
         sq = seq_of(n["id"], n["ln"])
         if decorate and idnum(n["id"]) % 3 == 1:      # soft-masked / ambiguous bases: the sequence text is data, not a normal form
             sq = sq[:1].lower() + sq[1:-1] + ("n" if len(sq) > 1 else "")
@@ -253,8 +255,12 @@ def sessions(ctx, cfgs, mode, opts_for=lambda k: {}):
             k += 1
             # chromosome names are opaque to the model; two of three sessions use names that are prefixes of one another
             # (chr1 / chr10 / chr2) in either assignment, as real assemblies do
-            ren = [{}, {"chrA": "chr10", "chrB": "chr1", "chrC": "chr2"}, {"chrA": "chr1", "chrB": "chr10", "chrC": "chr100"}][k % 3]
+            # ... and one in four assembly-prefixed / region-style names with ':' in them (hs1:chr1, chr6:2851-3348)
+            ren = [{}, {"chrA": "chr10", "chrB": "chr1", "chrC": "chr2"}, {"chrA": "chr1", "chrB": "chr10", "chrC": "chr100"},
+                   {"chrA": "hs1:chr1", "chrB": "hs1:chr10", "chrC": "chr6:2851-3348"}][k % 4]
             nodes = [dict(n, sn=ren.get(n["sn"], n["sn"])) for n in st["nodes"]]
+            if k % 4 == 3:      # allele contigs named like HLA alleles: they share everything before the first colon
+                nodes = [dict(n, sn=("HLA-A*01:" + n["sn"][3:] + ":01") if n["sr"] == 1 and n["sn"].startswith("alt") else n["sn"]) for n in nodes]
             if k % 2 == 1:      # assembler-style names of the non-reference contigs: they sort AFTER the chromosome names
                 nodes = [dict(n, sn=("ptg0000" + n["sn"][3:] + "l") if n["sr"] == 1 and n["sn"].startswith("alt") else n["sn"]) for n in nodes]
             chroms = [dict(c, name=ren.get(c["name"], c["name"])) for c in st["chroms"]]
